@@ -11,6 +11,7 @@
   `QV.Spec.Include.readFile` (recursive semantics, no stack).
 -/
 import QV.Proofs.Include
+import QV.Proofs.ZoneFile.Compose
 
 namespace QV.C25
 open QV QV.ZF QV.Inc QV.Spec.Inc
@@ -144,19 +145,163 @@ theorem C25_path_examples :
     computePath "/".toUTF8.toList "x".toUTF8.toList = none := by
   decide +kernel
 
+/-! ### textual inclusion: reading `a ++ b` -/
+
+/-- **Compositionality of the in-memory parser.**  Let `a` be empty or end with a newline that
+    is not preceded by a backslash (`Term a`), and let reading `a` from the context `ctx` yield
+    no error (which rules out that the final newline lies inside quotes or parentheses).  Then
+    reading `a ++ b` yields exactly what reading `a` yields, followed by what reading `b` yields
+    from the line and the context at which `a` ended (`Parser.finish`: the parser after `next`
+    has returned `None`) — for every `b`.  This is the sense in which including a file is
+    *textual*: the included text can be spliced in front of any other text. -/
+theorem C25_parse_append (a b : List UInt8) (ctx : Ctx) (hctx : CtxWF ctx) (ha : a = [] ∨ Term a)
+    (hok : ∀ y ∈ parseAll a ctx, ∃ i, y = .item i) :
+    parseAll (a ++ b) ctx =
+      parseAll a ctx ++
+        collect ⟨false, ⟨b, (Parser.withContext a ctx).finish.st.line, (Parser.withContext a ctx).finish.st.paren⟩,
+          (Parser.withContext a ctx).finish.ctx⟩ :=
+  collect_append b a.length a (Nat.le_refl _) ha ctx hctx 1 false hok
+
+/-- the same for a single step of the iterator: as long as the text before `b` is not used up,
+    `next` does not see `b` -/
+theorem C25_line_frame (ctx : Ctx) (x b : List UInt8) (hx : Term x) (line : Nat) (p : Bool)
+    (v : Option Item × Ctx) (y : List UInt8) (line' : Nat) (p' : Bool)
+    (h : parseLine ctx ⟨x, line, p⟩ = .ok (v, ⟨y, line', p'⟩)) :
+    parseLine ctx ⟨x ++ b, line, p⟩ = .ok (v, ⟨y ++ b, line', p'⟩) ∧ ∃ u, x = u ++ y :=
+  let ⟨h1, h2, _⟩ := Frame_parseLine ctx x b line p v y line' p' hx h
+  ⟨h1, h2⟩
+
+/-- a file all of whose entries are records, read as (part of) a file tree: its records, tagged
+    with the file, and the context in which it ends -/
+theorem C25_file_of_records {κ : Type} (resolve : κ → List UInt8 → Option (κ × List UInt8)) (D : Nat) (file : κ)
+    (depth : Nat) (n : Nat) : ∀ (p : Parser), p.st.inp.length ≤ n → p.error = false → CtxWF p.ctx →
+    (∀ y ∈ collect p, ∃ l r, y = .item (.record l r)) →
+    readFile resolve D file depth p =
+      ((collect p).filterMap (fun y => match y with
+          | .item (.record l r) => some (SY.record file l r)
+          | _ => none), some p.finish.ctx) := by
+  induction n with
+  | zero =>
+    intro p hlen herr hctx hrec
+    obtain ⟨e, st, ctx⟩ := p
+    simp only at herr hlen; subst herr
+    have hnil : st.inp = [] := List.length_eq_zero_iff.mp (by omega)
+    have hn : (⟨false, st, ctx⟩ : Parser).next = (none, ⟨false, st, ctx⟩) := by
+      obtain ⟨inp, l, pr⟩ := st
+      simp only at hnil; subst hnil
+      simp [Parser.next, untilData]
+    rw [readFile, collect_none hn, Parser.finish, hn]
+    simp
+  | succ n ih =>
+    intro p hlen herr hctx hrec
+    obtain ⟨e, st, ctx⟩ := p
+    simp only at herr hlen hctx; subst herr
+    have g := next_spec (p := ⟨false, st, ctx⟩) hctx
+    cases hu : untilData ctx st with
+    | ok r =>
+      obtain ⟨⟨it?, ctx'⟩, st'⟩ := r
+      cases it? with
+      | none =>
+        have hn : (⟨false, st, ctx⟩ : Parser).next = (none, ⟨false, st', ctx'⟩) := by simp [Parser.next, hu]
+        rw [readFile, collect_none hn, Parser.finish, hn]
+        simp
+      | some item =>
+        have hn := next_of_untilData hu
+        rw [hn] at g
+        obtain ⟨_, hctx', hlt⟩ := g
+        simp only at hlt hctx'
+        have hc := collect_item hn hlt
+        obtain ⟨l, r, hlr⟩ := hrec (.item item) (by rw [hc]; simp)
+        cases hlr
+        have hfin : Parser.finish ⟨false, st, ctx⟩ = Parser.finish ⟨false, st', ctx'⟩ := by
+          rw [Parser.finish, hn]; simp [hlt]
+        rw [readFile, hn, hfin, hc]
+        simp only [hlt, ↓reduceIte, List.filterMap_cons]
+        rw [ih ⟨false, st', ctx'⟩ (by simp at hlt ⊢; omega) rfl hctx'
+          (fun y hy => hrec y (by rw [hc]; exact List.mem_cons_of_mem _ hy))]
+    | err e =>
+      exfalso
+      have hmem : Yield.err e ∈ collect ⟨false, st, ctx⟩ := by rw [collect]; simp [Parser.next, hu]
+      obtain ⟨l, r, h⟩ := hrec _ hmem
+      cases h
+    | panic =>
+      exfalso
+      have hmem : Yield.panic ∈ collect ⟨false, st, ctx⟩ := by rw [collect]; simp [Parser.next, hu]
+      obtain ⟨l, r, h⟩ := hrec _ hmem
+      cases h
+
+/-- **`$INCLUDE` is textual inclusion with origin scoping** (for an included file that consists
+    of records only, ends with an unescaped newline and has no errors).  At an `$INCLUDE`
+    (`p.next` yields it, leaving the includer at `p'`):
+
+    * the *tree* reading reports the included file's records and then continues reading the
+      includer's remaining text `p'.st.inp` in the context in which the included file ended,
+      **with the includer's own origin**;
+    * the *flat* reading of the included text followed by the includer's remaining text, started
+      in the included file's initial context, yields the same items for the included text and
+      then continues reading the same remaining text in the context in which the included file
+      ended, origin included, at the line after the included text.
+
+    So the two readings differ exactly in the origin restored after the included text (and in
+    the line counter, which the tree reading keeps per file).  `_partial`: nested `$INCLUDE`s
+    inside the included file, and the equality of the two continuations when the origins agree
+    (it needs invariance of the parser under shifting the line counter), are not covered. -/
+theorem C25_include_is_textual_partial {κ : Type} (resolve : κ → List UInt8 → Option (κ × List UInt8))
+    (D : Nat) (file child : κ) (depth : Nat) (p p' : Parser) (line : Nat) (path content : List UInt8)
+    (origin : Option (List UInt8)) (hctx : CtxWF p.ctx)
+    (hn : p.next = (some (.item (.incl line path origin)), p')) (hd : depth < D)
+    (hres : resolve file path = some (child, content)) (hterm : content = [] ∨ Term content)
+    (hrec : ∀ y ∈ parseAll content (childContext p'.ctx origin), ∃ l r, y = .item (.record l r)) :
+    let inc := Parser.withContext content (childContext p'.ctx origin)
+    -- the tree reading
+    readFile resolve D file depth p =
+      ((parseAll content (childContext p'.ctx origin)).filterMap (fun y => match y with
+          | .item (.record l r) => some (SY.record child l r)
+          | _ => none) ++
+        (readFile resolve D file depth { p' with ctx := { inc.finish.ctx with origin := p'.ctx.origin } }).1,
+       (readFile resolve D file depth { p' with ctx := { inc.finish.ctx with origin := p'.ctx.origin } }).2) ∧
+    -- the flat reading of the spliced text
+    parseAll (content ++ p'.st.inp) (childContext p'.ctx origin) =
+      parseAll content (childContext p'.ctx origin) ++
+        collect ⟨false, ⟨p'.st.inp, inc.finish.st.line, inc.finish.st.paren⟩, inc.finish.ctx⟩ := by
+  intro inc
+  have g := next_spec (p := p) hctx
+  rw [hn] at g
+  obtain ⟨hitem, hctx', hlt⟩ := g
+  have hchild : CtxWF (childContext p'.ctx origin) := by
+    unfold childContext
+    cases origin with
+    | none => exact hctx'
+    | some o =>
+      simp only [ItemOK] at hitem
+      exact ⟨by intro o' ho'; simp at ho'; subst ho'; exact hitem o rfl, hctx'.2⟩
+  constructor
+  · have hr := C25_file_of_records resolve D child (depth + 1) content.length inc (by simp [inc, Parser.withContext])
+      rfl hchild hrec
+    rw [readFile, hn]
+    have hd' : ¬ depth ≥ D := by omega
+    simp only [hd', ↓reduceDIte, hres]
+    rw [show Parser.withContext content (childContext p'.ctx origin) = inc from rfl, hr]
+    simp only [hlt, ↓reduceIte]
+    rfl
+  · exact C25_parse_append content p'.st.inp _ hchild hterm
+      (fun y hy => by obtain ⟨l, r, h⟩ := hrec y hy; exact ⟨_, h⟩)
+
 /-!
   ### What is not proved (gap)
 
   The property's literal wording — "the same records as parsing the equivalent file with each
-  `$INCLUDE` replaced by the included file's contents" — is not stated as a Lean theorem.  Its
-  precise content is the recursive semantics above (context in, context out, origin restored);
-  deriving the *textual* form from it needs a compositionality theorem for the in-memory parser
-  (parsing `a ++ b`, where `a` ends at a line end outside parentheses, equals parsing `a` and
-  then `b` from `a`'s final context with shifted line numbers) plus `$ORIGIN` lines that emulate
-  the origin scoping — side conditions: the included file ends with a newline, has balanced
-  parentheses, and the includer's origin is set.  On every run the literal form is checked by the
-  harness's flattening oracle instead (op `incflat`: the flattened single file is parsed by the
-  real in-memory parser; the record lists must be equal).
+  `$INCLUDE` replaced by the included file's contents" — is proved in the decomposed form of
+  `C25_include_is_textual_partial` (built on `C25_machine_refines_spec` and `C25_parse_append`):
+  tree reading and flat reading of the spliced text yield the same records for the included
+  text and then read the same remaining text from contexts that differ only in the origin
+  (restored by the tree reading — the "origin scoping") and in the line counter.  Not proved:
+  that reading a text from two line counters yields the same records up to their line numbers
+  (needed to state one equation between record lists for a whole flattened file, together with
+  `$ORIGIN` lines that emulate the origin scoping when the includer's origin is set), and the
+  case of nested `$INCLUDE`s inside the included file.  On every run the literal form is
+  checked by the harness's flattening oracle (op `incflat`: the flattened single file is parsed
+  by the real in-memory parser; the record lists must be equal).
 -/
 
 /-! ### non-vacuity: a concrete tree, run through machine and semantics -/
@@ -184,5 +329,91 @@ example :
   decide +kernel
 
 example : ∀ a b, resolveFs exFs a b = .opened [] [] → True := fun _ _ _ => trivial
+
+/-! ### non-vacuity: splicing texts -/
+
+private def exA : List UInt8 := "$ORIGIN t.\na 5 IN NS b\n".toUTF8.toList
+private def exB : List UInt8 := " NS c\n".toUTF8.toList
+
+private theorem exA_term : Term exA :=
+  ⟨"$ORIGIN t.\na 5 IN NS b".toUTF8.toList, by decide +kernel, by decide +kernel⟩
+
+private theorem exA_parse : parseAll exA {} = [.item (.record 2 ⟨[1, 97, 1, 116, 0], 5, 1, 2, [1, 98, 1, 116, 0]⟩)] := by
+  decide +kernel
+
+/-- `C25_parse_append` applies: the text ` NS c` after `a 5 IN NS b` is read at line 3 with
+    owner `a.t.`, TTL 5, class IN and origin `t.` -/
+example : parseAll (exA ++ exB) {} =
+    [.item (.record 2 ⟨[1, 97, 1, 116, 0], 5, 1, 2, [1, 98, 1, 116, 0]⟩)] ++
+      collect ⟨false, ⟨exB, 3, false⟩, ⟨some [1, 116, 0], some [1, 97, 1, 116, 0], some 5, some 1, none⟩⟩ := by
+  have h := C25_parse_append exA exB {} CtxWF_default (.inr exA_term)
+    (by rw [exA_parse]; intro y hy; simp at hy; subst hy; exact ⟨_, rfl⟩)
+  rw [h, exA_parse]
+  have hf : (Parser.withContext exA {}).finish =
+      ⟨false, ⟨[], 3, false⟩, ⟨some [1, 116, 0], some [1, 97, 1, 116, 0], some 5, some 1, none⟩⟩ := by
+    decide +kernel
+  rw [hf]
+
+example : parseLine {} ⟨exA ++ exB, 1, false⟩ =
+    .ok ((none, { origin := some [1, 116, 0] }), ⟨"a 5 IN NS b\n".toUTF8.toList ++ exB, 2, false⟩) :=
+  (C25_line_frame {} exA exB exA_term 1 false _ _ 2 false (by decide +kernel)).1
+
+private def exInc : List UInt8 := "@ 7 IN A 9.9.9.9\n".toUTF8.toList
+private def exMainRest : List UInt8 := "a IN A 1.2.3.4\n".toUTF8.toList
+private def exP : Parser := ⟨false, ⟨"$INCLUDE i.zone s.\n".toUTF8.toList ++ exMainRest, 2, false⟩, { origin := some [1, 116, 0] }⟩
+private def exP' : Parser := ⟨false, ⟨exMainRest, 3, false⟩, { origin := some [1, 116, 0] }⟩
+
+/-- `C25_include_is_textual_partial` applies to the include of the example tree: both readings
+    yield the included record under origin `s.`; the tree reading continues with origin `t.`,
+    the flat reading with origin `s.` -/
+example :
+    readFile (fun (_ : String) (_ : List UInt8) => some ("i.zone", exInc)) 1 "main.zone" 0 exP =
+      ([.record "i.zone" 1 ⟨[1, 115, 0], 7, 1, 1, [9, 9, 9, 9]⟩,
+        .record "main.zone" 3 ⟨[1, 97, 1, 116, 0], 7, 1, 1, [1, 2, 3, 4]⟩],
+       some ⟨some [1, 116, 0], some [1, 97, 1, 116, 0], some 7, some 1, none⟩) ∧
+    parseAll (exInc ++ exMainRest) { origin := some [1, 115, 0] } =
+      [.item (.record 1 ⟨[1, 115, 0], 7, 1, 1, [9, 9, 9, 9]⟩),
+       .item (.record 2 ⟨[1, 97, 1, 115, 0], 7, 1, 1, [1, 2, 3, 4]⟩)] := by
+  have hn : exP.next = (some (.item (.incl 2 "i.zone".toUTF8.toList (some [1, 115, 0]))), exP') := by decide +kernel
+  have hparse : parseAll exInc (childContext exP'.ctx (some [1, 115, 0])) =
+      [.item (.record 1 ⟨[1, 115, 0], 7, 1, 1, [9, 9, 9, 9]⟩)] := by decide +kernel
+  have h := C25_include_is_textual_partial (fun (_ : String) (_ : List UInt8) => some ("i.zone", exInc)) 1
+    "main.zone" "i.zone" 0 exP exP' 2 "i.zone".toUTF8.toList exInc (some [1, 115, 0])
+    ⟨by intro o ho; cases ho; exact ⟨[[116]], by simp [LabelsOK], by decide, by decide⟩, by intro o ho; cases ho⟩
+    hn (by decide) rfl
+    (.inr ⟨"@ 7 IN A 9.9.9.9".toUTF8.toList, by decide +kernel, by decide +kernel⟩)
+    (by rw [hparse]; intro y hy; simp at hy; subst hy; exact ⟨_, _, rfl⟩)
+  have hfin : (Parser.withContext exInc (childContext exP'.ctx (some [1, 115, 0]))).finish =
+      ⟨false, ⟨[], 2, false⟩, ⟨some [1, 115, 0], some [1, 115, 0], some 7, some 1, none⟩⟩ := by decide +kernel
+  obtain ⟨h1, h2⟩ := h
+  constructor
+  · rw [h1, hparse, hfin]
+    have hrest : readFile (fun (_ : String) (_ : List UInt8) => some ("i.zone", exInc)) 1 "main.zone" 0
+        { exP' with ctx := { (⟨some [1, 115, 0], some [1, 115, 0], some 7, some 1, none⟩ : Ctx) with origin := exP'.ctx.origin } } =
+        ([.record "main.zone" 3 ⟨[1, 97, 1, 116, 0], 7, 1, 1, [1, 2, 3, 4]⟩],
+         some ⟨some [1, 116, 0], some [1, 97, 1, 116, 0], some 7, some 1, none⟩) := by
+      have hr := C25_file_of_records (fun (_ : String) (_ : List UInt8) => some ("i.zone", exInc)) 1 "main.zone" 0
+        exMainRest.length ⟨false, ⟨exMainRest, 3, false⟩, ⟨some [1, 116, 0], some [1, 115, 0], some 7, some 1, none⟩⟩
+        (Nat.le_refl _) rfl
+        ⟨by intro o ho; cases ho; exact ⟨[[116]], by simp [LabelsOK], by decide, by decide⟩,
+         by intro o ho; cases ho; exact ⟨[[115]], by simp [LabelsOK], by decide, by decide⟩⟩
+        (by
+          rw [show collect ⟨false, ⟨exMainRest, 3, false⟩, ⟨some [1, 116, 0], some [1, 115, 0], some 7, some 1, none⟩⟩ =
+            [.item (.record 3 ⟨[1, 97, 1, 116, 0], 7, 1, 1, [1, 2, 3, 4]⟩)] from by decide +kernel]
+          intro y hy; simp at hy; subst hy; exact ⟨_, _, rfl⟩)
+      rw [show ({ exP' with ctx := { (⟨some [1, 115, 0], some [1, 115, 0], some 7, some 1, none⟩ : Ctx) with origin := exP'.ctx.origin } } : Parser) =
+        ⟨false, ⟨exMainRest, 3, false⟩, ⟨some [1, 116, 0], some [1, 115, 0], some 7, some 1, none⟩⟩ from rfl, hr]
+      rw [show collect ⟨false, ⟨exMainRest, 3, false⟩, ⟨some [1, 116, 0], some [1, 115, 0], some 7, some 1, none⟩⟩ =
+            [.item (.record 3 ⟨[1, 97, 1, 116, 0], 7, 1, 1, [1, 2, 3, 4]⟩)] from by decide +kernel]
+      rw [show (Parser.finish ⟨false, ⟨exMainRest, 3, false⟩, ⟨some [1, 116, 0], some [1, 115, 0], some 7, some 1, none⟩⟩) =
+        ⟨false, ⟨[], 4, false⟩, ⟨some [1, 116, 0], some [1, 97, 1, 116, 0], some 7, some 1, none⟩⟩ from by decide +kernel]
+      rfl
+    rw [hrest]
+    rfl
+  · rw [show (childContext exP'.ctx (some [1, 115, 0])) = ({ origin := some [1, 115, 0] } : Ctx) from rfl] at h2
+    rw [show exP'.st.inp = exMainRest from rfl] at h2
+    rw [h2]
+    decide +kernel
+
 
 end QV.C25
